@@ -138,6 +138,11 @@ func getDefaultFieldTags(field reflect.StructField, parentJSONName string) (tagI
 
 func getFieldTagInfoByTag(field reflect.StructField, tag string) []TagInfo {
 	var tagInfos []TagInfo
+	// the declared default applies whichever entry point binds the field
+	defaultVal := ""
+	if val, ok := field.Tag.Lookup(defaultTag); ok {
+		defaultVal = val
+	}
 	if content, ok := field.Tag.Lookup(tag); ok {
 		tagValue, opts := head(content, ",")
 		if len(tagValue) == 0 {
@@ -157,9 +162,9 @@ func getFieldTagInfoByTag(field reflect.StructField, tag string) []TagInfo {
 				required = true
 			}
 		}
-		tagInfos = append(tagInfos, TagInfo{Key: tag, Value: tagValue, Options: options, Required: required, Skip: skip})
+		tagInfos = append(tagInfos, TagInfo{Key: tag, Value: tagValue, Options: options, Required: required, Default: defaultVal, Skip: skip})
 	} else {
-		tagInfos = append(tagInfos, TagInfo{Key: tag, Value: field.Name})
+		tagInfos = append(tagInfos, TagInfo{Key: tag, Value: field.Name, Default: defaultVal})
 	}
 
 	return tagInfos
